@@ -18,8 +18,13 @@ BUDGET = {'quick': 200, 'thorough': 4000}
 
 @st.composite
 def _case(draw, tier):
-    if draw(ints(0, 4)) == 0:
+    k = draw(ints(0, 5))
+    if k == 0:
         return {'spec': draw(specs.conn_dv_spec()), 'enc': 'COMPLETE', 'vseed': 0}
+    if k == 1:
+        # two connection choices that are active together (rows differing only in the first choice's vector)
+        return {'spec': draw(specs.two_conn_spec(start_bias=draw(st.sampled_from([0, 3, 6])))), 'enc': 'COMPLETE',
+                'vseed': 0}
     spec = draw(specs.sel_spec(max_nodes=9 if tier == 'quick' else 11))
     r = draw(ints(0, 99))
     if r < 20:
